@@ -252,6 +252,21 @@ func (c *ctx) writesOf(key string, fd *ast.FuncDecl, shared map[string]bool) []w
 			}
 		case *ast.IncDecStmt:
 			classify(s.X)
+		case *ast.CallExpr:
+			// Context.Update / delete(...) on the caller's data
+			if sel, ok := s.Fun.(*ast.SelectorExpr); ok && sel.Sel.Name == "Update" {
+				recv := exprString(sel.X)
+				if strings.HasSuffix(recv, ".Public") || strings.HasSuffix(recv, ".Globals") || strings.HasSuffix(recv, ".Shared") || recv == "context" {
+					out = append(out, write{key, recv + ".Update(…)", s.Pos()})
+				}
+			}
+			if id, ok := s.Fun.(*ast.Ident); ok && id.Name == "delete" && len(s.Args) == 2 {
+				recv := exprString(s.Args[0])
+				if strings.HasSuffix(recv, ".Public") || strings.HasSuffix(recv, ".Globals") || recv == "context" ||
+					strings.HasSuffix(recv, ".blocks") || strings.HasSuffix(recv, ".exportedMacros") || strings.HasSuffix(recv, ".bannedTags") || strings.HasSuffix(recv, ".bannedFilters") {
+					out = append(out, write{key, "delete(" + recv + ")", s.Pos()})
+				}
+			}
 		}
 		return true
 	})
